@@ -1438,6 +1438,39 @@ DISCARDING = ("core::result::Result::<T, E>::ok", "core::result::Result::<T, E>:
               "core::result::Result::<T, E>::unwrap_or", "core::result::Result::<T, E>::unwrap_or_else", "core::result::Result::<T, E>::unwrap_or_default")
 
 
+def buffered_input_capacity(chk, rule):
+    """Every BufReader the workspace creates has room for at least one byte.  The readers find the end of input, and the builders the
+    container and format, by looking at what fill_buf() returns; a BufReader of capacity 0 always returns an empty slice, so an input that
+    gets one reads as empty.  `BufReader::new` has a fixed non-zero capacity; `with_capacity(c, ..)` must get a non-zero constant (a
+    capacity computed from the file - its length, say - is 0 for a FIFO, a character device or /dev/stdin)."""
+    prog = chk.prog
+    n_new = 0
+    for f in prog.fn_list:
+        if f.derived:
+            continue
+        refs = []
+        for b, t in f.calls():
+            nm = callee_name(t["callee"])
+            if "BufReader" in nm and nm.endswith(("::new", "::with_capacity")):
+                refs.append((b, nm, t))
+            for a in t["args"]:
+                if a["k"] == "const" and a.get("fn") and "BufReader" in a["fn"] and a["fn"].endswith(("::new", "::with_capacity")):
+                    refs.append((b, a["fn"], None))
+        for b, nm, t in refs:
+            import rules_panic as RP_
+            short = RP_.norm_fn(f.path).split("sfs_core::")[-1]
+            if nm.endswith("::new"):
+                n_new += 1
+                chk.ob(rule, "BufReader@%s/capacity-nonzero" % short, True, f.loc(b), "BufReader::new: std's default capacity (8 KiB)")
+                continue
+            c = an.const_of(f, t["args"][0]) if t is not None else None
+            ok = c is not None and isinstance(c.get("val"), int) and c["val"] > 0
+            chk.ob(rule, "BufReader@%s/capacity-nonzero" % short, ok, f.loc(b),
+                   "BufReader::with_capacity must get a non-zero constant (found %s): a computed capacity can be 0, and then fill_buf() never returns data" % (c.get("val") if c else "a computed value"))
+    chk.ob(rule, "BufReader/input-file-is-buffered", n_new >= 1 or any(o["key"].startswith("BufReader@") for o in chk.obs), "",
+           "the input file is wrapped in a BufReader somewhere in the workspace (%d default-capacity constructions)" % n_new, nontrivial=False)
+
+
 def check_C18(chk):
     chk.explanation = (
         "Structural clauses of C18: (a) no short-count I/O primitive (read, write, read_vectored, consume, ...) is called anywhere in the "
@@ -1449,6 +1482,7 @@ def check_C18(chk):
     c18a(chk)
     c18b(chk)
     c18c(chk)
+    buffered_input_capacity(chk, "C18.c")
     c07e(chk)
     for o in chk.obs:
         if o["rule"] == "C07.e":
